@@ -149,6 +149,13 @@ def balanceGrewBy (b0 b1 : Option Nat) (amt : Int) : Option Bool :=
   | some x, some y => some (decide ((y : Int) = (x : Int) + amt))
   | _, _ => none
 
+/-- the module-escrow check of `convertCoinNativeERC20`: `balanceEscrowAfter == balanceEscrow - amount`
+    (`none` = a nil balance reaches big.Int arithmetic: panic) -/
+def balanceFellBy (m0 m1 : Option Nat) (amt : Int) : Option Bool :=
+  match m0, m1 with
+  | some x, some y => some (decide ((y : Int) = (x : Int) - amt))
+  | _, _ => none
+
 /-- `convertCoinNativeCoin` (pair owned by the module: escrow coins, mint tokens). -/
 def convertNativeCoin {σ} (E : Evm σ) (st : State σ) (p : Pair) (sender recv : Addr) (d : Denom) (amt : Int) :
     Outcome (State σ) :=
@@ -165,14 +172,17 @@ def convertNativeCoin {σ} (E : Evm σ) (st : State σ) (p : Pair) (sender recv 
       | some false => .err "invariance"
       | some true => .ok { st with bal := bank1, evm := r1.1 }
 
-/-- `convertCoinNativeERC20` (pair owned externally: escrow coins, transfer escrowed tokens, burn coins). -/
+/-- `convertCoinNativeERC20` (pair owned externally: escrow coins, transfer escrowed tokens, burn coins).
+    Order: receiver's and module's token balances read, coins escrowed, `transfer`, bool result, receiver balance
+    +amount, module balance -amount (commit 320c042), coins burned, approval-log check. -/
 def convertNativeERC20 {σ} (E : Evm σ) (st : State σ) (p : Pair) (sender recv : Addr) (d : Denom) (amt : Int) :
     Outcome (State σ) :=
   let r0 := E.balanceOf st.evm p.contract recv
+  let q0 := E.balanceOf r0.1 p.contract (evmAddr st.modAddr)     -- types.ModuleAddress
   match escrow st sender d amt with
   | none => .err "escrow"
   | some bank1 =>
-    match E.transfer r0.1 p.contract recv amt with
+    match E.transfer q0.1 p.contract recv amt with
     | none => .err "evm"
     | some (e2, ret, approval) =>
       match ret with
@@ -184,9 +194,14 @@ def convertNativeERC20 {σ} (E : Evm σ) (st : State σ) (p : Pair) (sender recv
         | none => .panic "nil-balance"
         | some false => .err "invariance"
         | some true =>
-          if bank1 st.modAddr d < amt then .err "burn"
-          else if approval then .err "approval"
-          else .ok { st with bal := addBal bank1 st.modAddr d (-amt), evm := r1.1 }
+          let q1 := E.balanceOf r1.1 p.contract (evmAddr st.modAddr)
+          match balanceFellBy q0.2 q1.2 amt with
+          | none => .panic "nil-escrow-balance"
+          | some false => .err "escrow-invariance"
+          | some true =>
+            if bank1 st.modAddr d < amt then .err "burn"
+            else if approval then .err "approval"
+            else .ok { st with bal := addBal bank1 st.modAddr d (-amt), evm := q1.1 }
 
 /-- `Keeper.ConvertCoin`. `.ok` with the pair deleted when the contract has self-destructed. -/
 def convertCoin {σ} (E : Evm σ) (st : State σ) (sender recv : Addr) (d : Denom) (amt : Int) : Outcome (State σ) :=
@@ -249,6 +264,8 @@ def onTimeout {ε} (innerResult : Option ε) : Option ε := innerResult
 inductive Kind where
   | std            -- syscontracts/erc20 ERC20MinterBurnerDecimals deployed by RegisterCoin (module = minter)
   | tiny (k : Nat) -- hand-assembled: mint/transfer(to, x): bal[to] += k*x (mod 2^256), returns true; balanceOf
+  | tinyd          -- hand-assembled honest ledger: mint(to,x): bal[to] += x; transfer(to,x): reverts unless
+                   -- bal[caller] >= x, bal[caller] -= x, bal[to] += x, returns true; balanceOf
   | revert         -- every call reverts
   | nocode         -- no code at the address
   | balrevert      -- mint/transfer return true without effect, everything else reverts
@@ -277,6 +294,7 @@ def cBalanceOf (e : EvmSt) (c : Nat) (a : Addr) : EvmSt × Option Nat :=
     (match x.kind with
      | .std => (e, some (x.bals a))
      | .tiny _ => (e, some (x.bals a))
+     | .tinyd => (e, some (x.bals a))
      | _ => (e, none))
   | none => (e, none)
 
@@ -293,6 +311,7 @@ def cMint (e : EvmSt) (c : Nat) (to : Addr) (amt : Int) : Option EvmSt :=
       else if x.supply + amt.toNat ≥ two256 then none
       else some (setContract e c { cCredit x to (x.bals to + amt.toNat) with supply := x.supply + amt.toNat })
     | .tiny k => some (setContract e c (cCredit x to ((x.bals to + k * amt.toNat) % two256)))
+    | .tinyd => some (setContract e c (cCredit x to ((x.bals to + amt.toNat) % two256)))
     | .revert => none
     | .nocode => some e
     | .balrevert => some e
@@ -309,6 +328,11 @@ def cTransfer (modEvm : Addr) (e : EvmSt) (c : Nat) (to : Addr) (amt : Int) : Op
         let x1 := cCredit x modEvm (x.bals modEvm - amt.toNat)
         some (setContract e c (cCredit x1 to (x1.bals to + amt.toNat)), some true, false)
     | .tiny k => some (setContract e c (cCredit x to ((x.bals to + k * amt.toNat) % two256)), some true, false)
+    | .tinyd =>
+      if x.bals modEvm < amt.toNat then none
+      else
+        let x1 := cCredit x modEvm (x.bals modEvm - amt.toNat)
+        some (setContract e c (cCredit x1 to ((x1.bals to + amt.toNat) % two256)), some true, false)
     | .revert => none
     | .nocode => some (e, none, false)
     | .balrevert => some (e, some true, false)
